@@ -205,6 +205,51 @@ func c19Schemas() []func() *c19Schema {
 			return s
 		},
 		func() *c19Schema {
+			s := &c19Schema{name: "defaults taken after an earlier node of the same execution has failed (earlier list item, sibling field)"}
+			def := []string{"d1", "d2"}
+			def2 := []string{"e1"}
+			own(&s.owned, "tags default of the list items", def)
+			own(&s.owned, "list default of the record", def2)
+			type It struct {
+				Name string
+				Tags []string
+			}
+			type Rec struct {
+				A string
+				L []string
+			}
+			items := z.Slice(z.Struct(z.Schema{"name": z.String().Min(3), "tags": z.Slice(z.String()).Default(def)}))
+			rec := z.Struct(z.Schema{"a": z.String().Min(3), "l": z.Slice(z.String()).Default(def2)})
+			own(&s.objects, "list schema", items)
+			own(&s.objects, "record schema", rec)
+			last := func(d []It) any {
+				if len(d) == 0 {
+					return nil
+				}
+				return d[len(d)-1].Tags
+			}
+			s.events = []c19Event{
+				{"Validate([failing item, item taking the default])", func() (string, any) {
+					d := []It{{Name: "x"}, {Name: "okay"}}
+					m := items.Validate(&d)
+					return c19Obs(m, d), last(d)
+				}},
+				{"Validate([item taking the default])", func() (string, any) { d := []It{{Name: "okay"}}; m := items.Validate(&d); return c19Obs(m, d), last(d) }},
+				{"Parse([failing item, item taking the default])", func() (string, any) {
+					var d []It
+					m := items.Parse([]any{map[string]any{"name": "x"}, map[string]any{"name": "okay"}}, &d)
+					return c19Obs(m, d), last(d)
+				}},
+				{"Validate(record: failing sibling, list taking the default)", func() (string, any) { d := Rec{A: "x"}; m := rec.Validate(&d); return c19Obs(m, d), d.L }},
+				{"Parse(record: failing sibling, list taking the default)", func() (string, any) {
+					var d Rec
+					m := rec.Parse(map[string]any{"a": "x"}, &d)
+					return c19Obs(m, d), d.L
+				}},
+			}
+			return s
+		},
+		func() *c19Schema {
 			s := &c19Schema{name: "Slice(Slice(Int)).Default([[1] [2 3]]).PostTransform(mutate inner)"}
 			def := [][]int{{1}, {2, 3}}
 			own(&s.owned, "nested slice default", def)
@@ -590,7 +635,7 @@ func init() {
 		ID:    "C19",
 		Rule:  "one execution = one sequence of ≤depth calls (Parse/Validate, absent/present inputs given as maps, []any, typed slices, structs, pointers) under {stock formatter, stock formatter over templates that mention {{value}}} on ONE schema object whose PostTransforms overwrite and append to their destination; after every call: deep snapshot (incl. hidden capacity) of every value handed to a builder (slice/nested defaults, OneOf lists, Contains params) and of every input is unchanged, the schema object itself (every field at any depth, incl. each test's parameter map) is unchanged, the destination shares no backing array with them, and a repeated call observes exactly what its first occurrence observed; every sequence is non-trivial; distinct = distinct (schema, call sequence). plus " + callsRule + ". plus " + layoutRule,
 		Floor: 20,
-		Bound: func(tier string) string { return fmt.Sprintf("all call sequences of length ≤%d over 13 schema families, every field visit order", c19Depth(tier)) },
+		Bound: func(tier string) string { return fmt.Sprintf("all call sequences of length ≤%d over 14 schema families, every field visit order", c19Depth(tier)) },
 		Assumptions: []string{"mutating callbacks only write through the pointer they are given"},
 		Items: func(tier string) []Item {
 			var items []Item
